@@ -91,6 +91,24 @@ def run(ctx):
                 if outputs(t) != outputs(cb):
                     s2.violate({"file": fn, "twin": "\n".join(new)[:2000]}, "same output", "differs", "blank lines / indentation / trailing blanks / comments change the output of a sample")
         s2.sample({"files": ["sample.s", "push_pull.s"]})
-        return [s, s2]
+
+        s3 = core.Stream("S4-run-used-twice", "a run of statements that occurs twice in a program is moved into one file that is included at both places (and once more inside a block): bytes, offsets and label values equal the inline program")
+        stm = ["nop", "lda #0x12", "sta.w 0x2100", ".db 1, 2, 3", ".dw 0x1234", "inx", "rep #0x30", ".ascii 'ok'", "lda.l 0x7e0000,x"]
+        for i in range(14 if tier == "quick" else 150):
+            runl = [rng.choice(stm) for _ in range(rng.randrange(1, 5))]
+            mid = [rng.choice(stm) for _ in range(rng.randrange(0, 3))]
+            inline = ["*=0x008000", "first:"] + runl + ["between:"] + mid + runl + ["{", "inner:"] + runl + ["}", "done:", ".dw first, between, done"]
+            twin = ["*=0x008000", "first:", ".include 'part_zq.s'", "between:"] + mid + [".include 'part_zq.s'", "{", "inner:", ".include 'part_zq.s'", "}", "done:", ".dw first, between, done"]
+            a = impl.assemble("\n".join(inline) + "\n", "low_rom", cwd=run_.tmp)
+            impl.write_files(run_.tmp, {"part_zq.s": "\n".join(runl) + "\n"}, None)
+            b = impl.assemble("\n".join(twin) + "\n", "low_rom", cwd=run_.tmp)
+            s3.cases += 1
+            s3.nontrivial.add(tuple(runl))
+            if outputs(a) is None:
+                s3.violate({"src": "\n".join(inline)}, "assembled", a.get("exc") or a.get("error"), "a plain program is rejected")
+            elif outputs(a) != outputs(b):
+                s3.violate({"src": "\n".join(inline), "twin": "\n".join(twin), "part_zq.s": "\n".join(runl)}, "same output", (b["status"], b.get("exc")), "moving a run of statements that is used several times into one included file changes the output")
+        s3.sample({"shape": "first: RUN between: … RUN { inner: RUN } done:"})
+        return [s, s2, s3]
     finally:
         run_.close()
